@@ -233,21 +233,34 @@ def committor_job(n, sources, sinks, zero_pattern=None, reversible=None, layout=
     return path
 
 
-def mfpt_job(n, sinks=None, zero_pattern=None, given_pops=True, layout='C', container=None):
+def mfpt_job(n, sinks=None, zero_pattern=None, given_pops=True, layout='C', container=None, reuse=False):
     tc = loader.load('enspara.tpt.core')
 
     def path(ctx):
         T, pi = sym_stochastic(ctx, n, zero_pattern, reversible=False)
         lag = core.fresh_real('lag')
         ctx.add(core.to_z3_real(lag) > 0)
-        A = lay(funcs.np_array(T, dtype=float), layout)
-        A0 = A.copy()
-        arg = as_container(A, container)
-        P = funcs.np_array(pi, dtype=float) if pi is not None else None
         if not given_pops:
             # populations=None: mfpts computes them itself (eigen-decomposition = Perron contract of the eig stub)
             from symnp import stubs as _st
             _st.EIG_CONTRACT[0] = _st.perron_contract
+        if reuse:
+            # history: the SAME array object held another chain before and was analysed with the same arguments; it is then overwritten
+            # in place.  The times must describe the current contents (no state carried between calls)
+            T_old, pi_old = sym_stochastic(ctx, n, zero_pattern, reversible=False)
+            A = lay(funcs.np_array(T_old, dtype=float), layout)
+            P_old = funcs.np_array(pi_old, dtype=float) if (pi_old is not None and given_pops) else None
+            if sinks is None:
+                tc.mfpts(A, populations=P_old, lagtime=lag)
+            else:
+                tc.mfpts(A, sinks=list(sinks), populations=P_old, lagtime=lag)
+            A[...] = funcs.np_array(T, dtype=float)
+        else:
+            A = lay(funcs.np_array(T, dtype=float), layout)
+        A0 = A.copy()
+        arg = as_container(A, container)
+        P = funcs.np_array(pi, dtype=float) if pi is not None else None
+        if not given_pops:
             P = None
         exc = None
         try:
@@ -280,6 +293,22 @@ def mfpt_job(n, sinks=None, zero_pattern=None, given_pops=True, layout='C', cont
             pc = np.array([fl(ev(model, p)) for p in pi]) if (pi is not None and given_pops) else None
             if pc is not None:
                 out['inputs']['populations'] = pc.tolist()
+            if reuse:
+                To = model_matrix(model, T_old)
+                po_ = np.array([fl(ev(model, p)) for p in pi_old]) if (pi_old is not None and given_pops) else None
+                out['inputs']['earlier contents of the same array (analysed first, then overwritten in place)'] = {
+                    'tprob': To, 'populations': po_.tolist() if po_ is not None else None}
+                Ac = lay(np.array(To), layout)
+                with core.concrete_mode():
+                    try:
+                        if sinks is None:
+                            tc.mfpts(Ac, populations=po_, lagtime=lc)
+                        else:
+                            tc.mfpts(Ac, sinks=list(sinks), populations=po_, lagtime=lc)
+                    except Exception as e:
+                        out.update(exception=repr(e), out=None, violated=['raises ' + type(e).__name__], signature='exception:' + type(e).__name__)
+                        return out
+                Ac[...] = np.array(Tc)
             with core.concrete_mode():
                 try:
                     if sinks is None:
@@ -452,6 +481,11 @@ def flux_job(n, sources, sinks, zero_pattern=None, container=None, layout='C', r
             Tol.TOL = 1e-7
             bad = run_oracle(flux_oracle(n, tolm(Tc), tolv(pc), tolv(qc), tolm(Fc.tolist()), tolm(NFc.tolist()),
                                          tolv(RPc), list(sources), list(sinks)))
+            # the net-flux clause is also judged EXACTLY on the real outputs: the library forms it from its own flux matrix with one float
+            # subtraction per cell, so positive-part(F - F^T) of the returned F is bit-identical to the returned net flux (a tolerance would
+            # hide an absolute cut-off applied to small fluxes)
+            if 'net-flux-is-positive-part-of-flux-minus-transpose' not in bad and not np.array_equal(NFc, np.maximum(Fc - Fc.T, 0)):
+                bad.append('net-flux-is-positive-part-of-flux-minus-transpose')
             if not sp_ok:
                 bad.append('sparse-input-gives-dense-flux-matrix')
             if dn(Ac).tolist() != Tc or Pc.tolist() != pc:
